@@ -32,6 +32,19 @@ CheckCtor(e) ==
                     /\ (\A n2 \in 1..20 : Dot(p.m[r], p.m[r]) = n2 * n2 => Abs(dv.v * n2 * c.dist_den - raw * WQ) <= n2 * c.dist_den),
          "distance() has the wrong sign or magnitude for a non-zero row", "distance/" \o nm)
 
+\* distance_raw(x) = b - A x for every row (what distance() normalises and contains() compares with the tolerance);
+\* distances_raw (matrix form) is compared column by column where it returns at all: on the current tree it panics unless the
+\* number of points equals the number of rows (a broadcast of the bias against the point matrix) - outside the listed properties, noted
+CheckRaw(e) ==
+    LET p == e.post IN
+    "raw" \notin DOMAIN e \/
+    /\ V("C14", e, ~p.ex \/ \A k \in 1..Len(e.raw.single) :
+            LET x == e.raw.single[k][1] IN e.raw.single[k][2] = [r \in 1..Len(p.m) |-> p.b[r] * 2 - Dot(p.m[r], x)],
+         "distance_raw(x) differs from b - A x at a grid point", "distance_raw/" \o e.arg.ctor)
+    \* not a verdict: C14 speaks about distance(); the matrix form is only recorded (see DESIGN.md, observations outside the properties)
+    /\ Require(~p.ex \/ (e.raw.multi.res = "ok" /\ \A k \in 1..Len(e.raw.single) : k <= Len(e.raw.multi.cols) /\ e.raw.multi.cols[k] = e.raw.single[k][2]),
+               Note("OUTOFSCOPE", e, "distances_raw (matrix form) panics or differs from distance_raw column by column"))
+
 \* ---------------------------------------------------------------- polytopes: transformations (C14)
 CheckStep14(e) ==
     LET p == e.pre  r == e.post  s == e.arg
@@ -77,7 +90,7 @@ CheckPoly(e) ==
     IF e.res = "panic" THEN
         V(IF e.op \in M!CleanOps THEN "C15" ELSE "C14", e, FALSE, "polytope operation panicked: " \o e.op, e.op \o "/panic")
     ELSE IF ~e.post.ex THEN Note("INEXACT", e, "result not representable at the trace scale: exact comparison skipped for " \o e.op)
-    ELSE IF e.op = "ctor" THEN CheckCtor(e)
+    ELSE IF e.op = "ctor" THEN CheckCtor(e) /\ CheckRaw(e)
     ELSE IF e.op \in M!CleanOps THEN CheckClean(e)
     ELSE CheckStep14(e)
 
@@ -90,6 +103,7 @@ Expected(s) ==
       [] s.op = "div" -> DivF(s.f, s.g) [] s.op = "rem" -> RemF(s.f, s.g)
       [] s.op = "neg" -> NegF(s.f)
       [] s.op = "row" -> Row(s.f, s.row)
+      [] s.op = "reset_row" -> ResetRow(s.f, s.row)
       [] s.op = "remove_rows" -> RemoveRows(s.f, SeqToSet(s.rows))
       [] s.op = "remove_zero_rows" -> RemoveZeroRows(s.f)
       [] s.op = "remove_zero_columns" -> RemoveZeroColumns(s.f)
@@ -103,6 +117,9 @@ CheckAff(e) ==
            [] s.op = "neg" -> V("C16", e, \A v \in {o.o, o.r, o.negate} : SameAff(v, Expected(s)), "negation is not coefficient-wise", sg)
            [] s.op = "row_iter" -> V("C16", e, Len(o) = Len(s.f.m) /\ \A r \in 1..Len(o) : SameAff(o[r], Row(s.f, r - 1)), "row_iter does not yield the rows in order", sg)
            [] s.op = "apply" -> V("C16", e, \A k \in 1..Len(o) : o[k][2] = Scale(e.q, Apply(s.f, o[k][1], s.den)), "apply(x) differs from M x + c", sg)
+           [] s.op = "apply_transpose" -> V("C16", e, \A k \in 1..Len(o) : o[k][2] = Scale(e.q, ApplyTranspose(s.f, o[k][1], s.den)), "apply_transpose(x) differs from M^T (x - c)", sg)
+           [] s.op = "views" -> V("C16", e, SameAff(o.f, s.f) /\ o.indim = s.f.n /\ o.outdim = Len(s.f.m) /\ o.ncons = Len(s.f.m),
+                                  "matrix_view / bias_view / indim / outdim / n_constraints do not describe the stored function", sg)
            [] s.op = "convert_to" ->
                 /\ V("C16", e, SameAff(o, Expected(s)), "convert_to(" \o s.repr \o ") coefficients differ from the documented representation", sg \o "/" \o s.repr)
                 /\ V("C16", e, SetEq(ReprCons(o, s.repr), Cons(s.f), s.f.n), "convert_to(" \o s.repr \o ") does not denote the same half-spaces", sg \o "/" \o s.repr)
